@@ -4,6 +4,9 @@ package main
 // driver registries, Redis URL parsing, and "the store is built from the validated config".
 
 import (
+	"io"
+	"net"
+	"os"
 	"github.com/chihaya/chihaya/pkg/timecache"
 	"github.com/chihaya/chihaya/pkg/stop"
 	"strconv"
@@ -355,6 +358,7 @@ func runC20(c *Ctx) {
 		replayC20(c, op, a)
 	}
 	r := c.R
+	cfgFrontendAll(c)
 	// registries
 	for _, n := range []string{"client approval", "torrent approval", "interval variation", "jwt"} {
 		cfgNew(c, "hook", n, true)
@@ -415,6 +419,113 @@ func runC20(c *Ctx) {
 			valMem(c, int64(r.U64()), int64(r.U64()), int64(r.U64()), int64(r.U64()))
 		case 3:
 			valHTTP(c, int64(r.U64()), int64(r.U64()), int64(r.U64()), int64(uint32(r.U64())), int64(uint32(r.U64())), int64(uint32(r.U64())))
+		}
+	}
+}
+
+// cfg.frontend: what NewFrontend of either frontend does with a configuration it must refuse, and what it leaves
+// behind: addr= "" | free | busy (a port another socket is listening on), https= likewise, routes=0/1,
+// tls= none | good | cert-only | missing-file. A refusal must leave no listener of its own: when the HTTPS port is busy
+// the HTTP port it has already bound must be free again. An accepted configuration serves and stops.
+func cfgFrontend(c *Ctx, proto, addr, https, tlsKind string, routes bool) {
+	op := fmt.Sprintf("cfg.frontend proto=%s addr=%s https=%s tls=%s routes=%s", proto, addr, https, tlsKind, b01(routes))
+	c.Begin(op)
+	obs := func() (o string) {
+		defer func() {
+			if p := recover(); p != nil {
+				o = "PANIC " + strings.Fields(fmt.Sprint(p))[0]
+			}
+		}()
+		ps, lg := newStoreLogic()
+		defer func() { <-ps.Stop() }()
+		var keep []io.Closer
+		defer func() {
+			for _, k := range keep {
+				k.Close()
+			}
+		}()
+		port := func(kind string) (string, int) {
+			switch kind {
+			case "free":
+				p := freePort()
+				return fmt.Sprintf("127.0.0.1:%d", p), p
+			case "busy":
+				if proto == "udp" {
+					u, err := net.ListenUDP("udp", &net.UDPAddr{IP: net.IPv4(127, 0, 0, 1)})
+					if err != nil {
+						panic(err)
+					}
+					keep = append(keep, u)
+					p := u.LocalAddr().(*net.UDPAddr).Port
+					return fmt.Sprintf("127.0.0.1:%d", p), p
+				}
+				l, err := net.Listen("tcp", "127.0.0.1:0")
+				if err != nil {
+					panic(err)
+				}
+				keep = append(keep, l)
+				p := l.Addr().(*net.TCPAddr).Port
+				return fmt.Sprintf("127.0.0.1:%d", p), p
+			}
+			return "", 0
+		}
+		a, ap := port(addr)
+		if proto == "udp" {
+			fe, err := udpfe.NewFrontend(lg, udpfe.Config{Addr: a, PrivateKey: udpKey, MaxClockSkew: 10 * time.Second})
+			if err != nil {
+				return "refused"
+			}
+			stopped, _ := waitStop(fe.Stop(), 3*time.Second)
+			return "built stopped=" + b01(stopped)
+		}
+		h, _ := port(https)
+		cfg := httpfe.Config{Addr: a, HTTPSAddr: h, ReadTimeout: time.Second, WriteTimeout: time.Second}
+		if routes {
+			cfg.AnnounceRoutes, cfg.ScrapeRoutes = []string{"/announce"}, []string{"/scrape"}
+		}
+		switch tlsKind {
+		case "good", "cert-only":
+			cp, kp, dir := selfSigned()
+			defer os.RemoveAll(dir)
+			cfg.TLSCertPath = cp
+			if tlsKind == "good" {
+				cfg.TLSKeyPath = kp
+			}
+		case "missing-file":
+			cfg.TLSCertPath, cfg.TLSKeyPath = "/nonexistent/verif-cert.pem", "/nonexistent/verif-key.pem"
+		}
+		fe, err := httpfe.NewFrontend(lg, cfg)
+		if err != nil {
+			released := "-"
+			if addr == "free" {
+				// the port it may have bound before giving up must be free again
+				released = "0"
+				for i := 0; i < 20; i++ {
+					if l, e := net.Listen("tcp", fmt.Sprintf("127.0.0.1:%d", ap)); e == nil {
+						l.Close()
+						released = "1"
+						break
+					}
+					time.Sleep(25 * time.Millisecond)
+				}
+			}
+			return "refused http_port_released=" + released
+		}
+		stopped, _ := waitStop(fe.Stop(), 3*time.Second)
+		return "built stopped=" + b01(stopped)
+	}()
+	c.Emit(op, obs)
+}
+
+func cfgFrontendAll(c *Ctx) {
+	for _, a := range []string{"-", "free", "busy"} {
+		cfgFrontend(c, "udp", a, "-", "none", true)
+		for _, h := range []string{"-", "free", "busy"} {
+			for _, t := range []string{"none", "good", "cert-only", "missing-file"} {
+				for _, r := range []bool{true, false} {
+					cfgFrontend(c, "http", a, h, t, r)
+				}
+			}
 		}
 	}
 }
